@@ -1,6 +1,9 @@
 package models
 
-import "fmt"
+import (
+	"fmt"
+	"math"
+)
 
 type Quantizer struct {
 	Type    string                      `json:"type" binding:"required,oneof=none binary product"`
@@ -59,6 +62,11 @@ type BinaryQuantizerParamaters struct {
 func (b BinaryQuantizerParamaters) Validate() error {
 	if b.Threshold == nil && (b.TriggerThreshold < 0 || b.TriggerThreshold > 50000) {
 		return fmt.Errorf("triggerThreshold must be between 0 and 50000, got %d", b.TriggerThreshold)
+	}
+	if b.Threshold != nil && (math.IsNaN(float64(*b.Threshold)) || math.IsInf(float64(*b.Threshold), 0)) {
+		// MessagePack can carry these, JSON cannot: the collection could
+		// be created but not be shown again
+		return fmt.Errorf("threshold must be a finite number, got %f", *b.Threshold)
 	}
 	if b.DistanceMetric != DistanceHamming && b.DistanceMetric != DistanceJaccard {
 		return fmt.Errorf("invalid distance metric for binary quantization, got %s", b.DistanceMetric)
